@@ -147,6 +147,8 @@ impl Property for C02 {
         let nclients = 2 + src.below(4) as usize;
         let yield_bias = src.below(8);
         let cancel_rate = *src.pick(&[0u64, 0, 1, 3]);
+        // a slow node: now and then a shard is held up for 0.1-10 s of tokio time before it handles its next message
+        let stall_rate = *src.pick(&[0u64, 0, 0, 1]);
         // every third run the clients are connections: the production handler on a SimStream each
         let conn = src.below(3) == 0;
         let depth = if conn { 1 + src.below(3) as usize } else { 1 };
@@ -176,6 +178,7 @@ impl Property for C02 {
         let seed = src.u64_any();
         let recs: Rc<RefCell<Vec<Rec>>> = Rc::new(RefCell::new(Vec::new()));
         let seq = Rc::new(Cell::new(0u64));
+        let stalls = Rc::new(Cell::new(0u64));
         let (steps, order_fp, cancelled) = rt::block_on(seed, async {
             let clock = SimClock::new(1_700_000_000_000);
             if conn {
@@ -230,8 +233,10 @@ impl Property for C02 {
                         let victims: Vec<usize> = (0..nclients).filter(|c| !sched.is_done(nclients + *c) && inflight[*c].get()).collect();
                         if !victims.is_empty() { let v = victims[src.idx(victims.len())]; streams[v].close(); sched.cancel(nclients + v); cancelled += 1; continue; }
                     }
+                    if stall_rate > 0 && src.chance(1, 30) { verif_hooks::stall::set_ms(*src.pick(&[3000u64, 100, 10_000])); stalls.set(stalls.get() + 1); }
                     if let rt::Step::Idle = sched.step(src, yield_bias).await { break; }
                 }
+                let _ = verif_hooks::stall::take_ms();
                 for s in &streams { s.close(); }
                 for _ in 0..(4 * nclients + 8) { if (0..nclients).all(|c| sched.is_done(c)) { break; } let _ = sched.step(src, 0).await; }
                 verif_hooks::clock::clear();
@@ -266,13 +271,16 @@ impl Property for C02 {
                     let victims: Vec<usize> = (0..nclients).filter(|c| !sched.is_done(*c) && inflight[*c].get()).collect();
                     if !victims.is_empty() { let v = victims[src.idx(victims.len())]; sched.cancel(v); cancelled += 1; continue; }
                 }
+                if stall_rate > 0 && src.chance(1, 30) { verif_hooks::stall::set_ms(*src.pick(&[3000u64, 100, 10_000])); stalls.set(stalls.get() + 1); }
                 if let rt::Step::Idle = sched.step(src, yield_bias).await { break; }
             }
+            let _ = verif_hooks::stall::take_ms();
             (sched.steps, sched.order_fp, cancelled)
         });
         rep.steps = steps;
         if cancelled > 0 { rep.probe_n("cancel_mid_flight", cancelled); rep.fault(if conn { "connection_dropped_mid_operation" } else { "client_cancelled_mid_operation" }); }
         if conn { rep.probe("connection_level_run"); }
+        for _ in 0..stalls.get() { rep.fault("shard_stalled"); }
         let recs = recs.borrow().clone();
         if ctx.trace {
             rep.trace.push(format!("shards={} response_pool(capacity={}, prewarm={}) clients={} connection_level={} pipeline_depth={} conn_cfg=(read_buffer_size={}, min_pipeline_buffer={}, batch_threshold={})", nshards, cap, prewarm, nclients, conn, depth, ccfg.read_buffer_size, ccfg.min_pipeline_buffer, ccfg.batch_threshold));
